@@ -58,7 +58,7 @@ mut("http-low-emits-high", ["C14"], [(AV, "rb.append_header((SNAPSHOT_REQUEST_HE
 mut("http-low-emits-nothing", ["C14"], [(AV, "                    SnapshotUrgency::Low => {\n                        rb.append_header((SNAPSHOT_REQUEST_HEADER, \"urgency=low\"));\n                    }", "                    SnapshotUrgency::Low => {}")], "C14", "Low urgency not reported")
 mut("http-headers-swapped", ["C14"], [(GCV, ".append_header((VERSION_ID_HEADER, version_id.to_string()))\n            .append_header((PARENT_VERSION_ID_HEADER, parent_version_id.to_string()))", ".append_header((VERSION_ID_HEADER, parent_version_id.to_string()))\n            .append_header((PARENT_VERSION_ID_HEADER, version_id.to_string()))")], "C14", "id headers swapped")
 mut("http-gone-as-404", ["C14"], [(GCV, "Err(error::ErrorGone(\"version has been deleted\"))", "Err(error::ErrorNotFound(\"version has been deleted\"))")], "C14", "gone reported as not-found")
-mut("http-nosuchclient-500", ["C14", "C05"], [(API, "ServerError::NoSuchClient => error::ErrorNotFound(err),", "ServerError::NoSuchClient => error::ErrorInternalServerError(err),")], "C14", "unknown client -> 500")
+mut("http-nosuchclient-500", ["C14"], [(API, "ServerError::NoSuchClient => error::ErrorNotFound(err),", "ServerError::NoSuchClient => error::ErrorInternalServerError(err),")], "C14", "unknown client -> 500")
 mut("http-missing-ctype", ["C14"], [(GS, "            .content_type(SNAPSHOT_CONTENT_TYPE)\n", "")], "C14", "snapshot content type missing")
 mut("http-conflict-wrong-header", ["C14"], [(AV, "rb.append_header((PARENT_VERSION_ID_HEADER, parent_version_id.to_string()));", "rb.append_header((VERSION_ID_HEADER, parent_version_id.to_string()));")], "C14", "conflict uses X-Version-Id")
 mut("http-conflict-names-request-parent", ["C14"], [(AV, "            Ok((AddVersionResult::ExpectedParentVersion(parent_version_id), _)) => {", "            Ok((AddVersionResult::ExpectedParentVersion(_), _)) => {")], "C14", "conflict header names the *requested* parent (shadowing removed)")
